@@ -112,6 +112,7 @@ impl Call {
 
 thread_local! {
     static LAST_PANIC: RefCell<Option<String>> = RefCell::new(None);
+    static GUARD_DEPTH: std::cell::Cell<u32> = std::cell::Cell::new(0);
 }
 
 /// Install a quiet panic hook that records `file:line: message`.
@@ -129,6 +130,10 @@ pub fn install_panic_hook() {
             "<non-string panic>".to_string()
         };
         let first = msg.lines().next().unwrap_or("").to_string();
+        if GUARD_DEPTH.with(|d| d.get()) == 0 {
+            // not inside a guarded interpreter call: this is a bug of the harness itself
+            eprintln!("HARNESS PANIC at {}: {}", loc, msg);
+        }
         LAST_PANIC.with(|p| *p.borrow_mut() = Some(format!("{}: {}", normalise_path(&loc), first)));
     }));
 }
@@ -151,7 +156,10 @@ pub fn take_panic() -> String {
 
 /// Run `f`, converting an unwind into `Err(location: message)`.
 pub fn guarded<T>(f: impl FnOnce() -> T) -> Result<T, String> {
-    match catch_unwind(AssertUnwindSafe(f)) {
+    GUARD_DEPTH.with(|d| d.set(d.get() + 1));
+    let r = catch_unwind(AssertUnwindSafe(f));
+    GUARD_DEPTH.with(|d| d.set(d.get() - 1));
+    match r {
         Ok(v) => Ok(v),
         Err(_) => Err(take_panic()),
     }
